@@ -9,7 +9,11 @@ operations), and after every step compares
   * the outcome class (value / rejected / bool / list / open / alternatives),
   * the result projected back to the abstract form (type, auto flag, bin edges,
     closedness, members, count arrays, sums of weights, sampled values),
-  * every OLDER object of the workspace (operations must not mutate operands).
+  * every OLDER object of the workspace (operations must not mutate operands):
+    the raw pair counts and sums of weights of every level - for a CorrFunc of
+    every member - are compared with the integers of the model after EVERY step,
+    also after the read accessor ``get_array()`` (GetArray), whose returned
+    arrays are only read by the driver.
 
 Verdicts follow DESIGN 2.3: only a disagreement of the *real* result with what
 the property prescribes is a violation; exception types and unprescribed
@@ -33,14 +37,14 @@ Z0, ZU = 0.5, 1.0  # integer edge e  ->  redshift Z0 + ZU * e (exact in binary: 
 NONE = 99
 
 ALL_OPS = ["Add", "Sub", "AddVar", "SubVar", "RAdd", "Mul", "Eq", "EqVar", "IsCompat", "IsCompatVar", "Bins", "Patches",
-           "IterBins", "IterPatches", "PatchSum", "Sample", "RedshiftCF", "RedshiftCD", "RedshiftCDVar", "Normalise",
+           "IterBins", "IterPatches", "PatchSum", "GetArray", "Sample", "RedshiftCF", "RedshiftCD", "RedshiftCDVar", "Normalise",
            "Construct"]
 ACTION_OF_OP = {"RAdd": "SomeRAdd"}
 LAWS_C17 = ["TypeOK", "EqReflexive", "EqSymmetric", "EqDetectsDifference", "AddAddsCounts", "MulScales",
             "MulRejectsNonScalars", "BinsCommuteWithSampling", "PatchSumIsSubArraySum", "SelectionCommutesWithAdd",
-            "IterationIsIndexing", "DataAlgebra", "JackknifeShortcut", "AcceptIffValid"]
+            "IterationIsIndexing", "DataAlgebra", "JackknifeShortcut", "GetArrayLaw", "AcceptIffValid"]
 LAWS_C04 = ["TypeOK", "NormaliserLaw", "JackknifeShortcut", "EstimatorLaw", "IntegralIsOne", "RedshiftLaw",
-            "AcceptIffValid", "MulScales", "BinsCommuteWithSampling"]
+            "AcceptIffValid", "MulScales", "BinsCommuteWithSampling", "GetArrayLaw"]
 DEVIATIONS = ["MulCountAttr", "FancyPatchIndex", "AddPassesClosed", "AddDropsMembers", "SwNdimChain"]
 
 CLASSNAME = dict(PC="PatchedCounts", SW="PatchedSumWeights", NC="NormalisedCounts", CF="CorrFunc", SD="SampledData",
@@ -49,15 +53,28 @@ OPNAME = dict(Add="add", Sub="sub", AddVar="add", SubVar="sub", RAdd="radd", Mul
               IsCompat="is_compatible", IsCompatVar="is_compatible", Bins="bins", Patches="patches",
               IterBins="iter_bins", IterPatches="iter_patches", PatchSum="sample_patch_sum", Sample="sample",
               RedshiftCF="from_corrfuncs", RedshiftCD="from_corrdata", RedshiftCDVar="from_corrdata",
-              Normalise="normalised", Construct="init")
+              Normalise="normalised", Construct="init", GetArray="get_array")
+LEVEL_ATTR = dict(PC="counts", SW="sum_weights")
 
 
-def scenario(level, nb, np_, *, auto=False, mem=(), seed=1, closed="right") -> dict:
-    return dict(level=level, nb=nb, np=np_, auto=bool(auto), mem=frozenset(mem), seed=seed, closed=closed)
+def ga_path(var: str, k: str) -> tuple[str, str, str]:
+    """History entry of GetArray: var = "<member>.<level>" -> (member, level, class of the route):
+    self | counts | sum_weights | member | member.counts | member.sum_weights."""
+    m, lv = var.split(".")
+    holder = "NC" if k == "CF" else k      # level of the object the member name leads to
+    route = [] if m == "x" else ["member"]
+    if lv != holder:
+        route.append(LEVEL_ATTR[lv])
+    return m, lv, ".".join(route) or "self"
+
+
+def scenario(level, nb, np_, *, auto=False, mem=(), seed=1, closed="right", zero=0) -> dict:
+    """zero = b > 0: redshift bin b is empty (no pairs / weights; NaN value and samples for data levels)."""
+    return dict(level=level, nb=nb, np=np_, auto=bool(auto), mem=frozenset(mem), seed=seed, closed=closed, zero=zero)
 
 
 def scen_key(s: dict) -> tuple:
-    return (s["level"], s["nb"], s["np"], bool(s["auto"]), tuple(sorted(s["mem"])), s["seed"], s["closed"])
+    return (s["level"], s["nb"], s["np"], bool(s["auto"]), tuple(sorted(s["mem"])), s["seed"], s["closed"], s.get("zero", 0))
 
 
 # ---------------------------------------------------------------------------
@@ -120,6 +137,7 @@ def parse_emitted(out: str):
 def _scen_from(d: dict) -> dict:
     d = dict(d)
     d["mem"] = frozenset(d["mem"])
+    d.setdefault("zero", 0)
     return d
 
 
@@ -404,6 +422,8 @@ def arg_class(h, vws, res_out="") -> str:
     if op == "PatchSum":
         v = vws[h["i"] - 1]
         return "auto" if v["auto"] else "cross"
+    if op == "GetArray":
+        return ga_path(h["var"], vws[h["i"] - 1]["k"])[2]
     if op in ("Normalise", "Construct"):
         return h["var"]
     return "all"
@@ -474,8 +494,20 @@ def _operand(world, h, args, a):
     return world.operand(args[0], a)
 
 
+def get_array_target(world: World, a, var: str):
+    """The object whose get_array() the history entry addresses: a itself / a member of a
+    CorrFunc, or the counts / sum_weights container inside it."""
+    m, lv = var.split(".")
+    obj = a if m == "x" else getattr(a, m)
+    if isinstance(obj, world.NormalisedCounts) and lv != "NC":
+        obj = getattr(obj, LEVEL_ATTR[lv])
+    if type(obj) is not world.cls[lv]:
+        raise TypeError(f"{var}: reached a {type(obj).__name__}, not a {CLASSNAME[lv]}")
+    return obj
+
+
 def execute(world: World, h, res, rws):
-    """-> ("val", obj) | ("rej", exc) | ("bool", x) | ("list", [...]) | ("other", x)."""
+    """-> ("val", obj) | ("rej", exc) | ("bool", x) | ("list", [...]) | ("arr", ndarray) | ("asym", (x == y, y == x)) | ("other", x)."""
     op = h["op"]
     a = rws[h["i"] - 1]
     args = res.get("args", [])
@@ -493,10 +525,13 @@ def execute(world: World, h, res, rws):
             r = sum([a, rws[h["j"] - 1]]) if h["j"] else (int(h["sel"]["lo"]) + a)
         elif op == "Mul":
             r = a * world.scalar(h["sc"], a)
-        elif op == "Eq":
-            r = a == rws[h["j"] - 1]
-        elif op == "EqVar":
-            r = a == _operand(world, h, args, a)
+        elif op in ("Eq", "EqVar"):
+            other = rws[h["j"] - 1] if op == "Eq" else _operand(world, h, args, a)
+            r = a == other
+            if other is not a and isinstance(r, (bool, np.bool_)):
+                back = other == a     # equality is structural: it cannot depend on the side
+                if isinstance(back, (bool, np.bool_)) and bool(back) != bool(r):
+                    return ("asym", (bool(r), bool(back)))
         elif op == "IsCompat":
             r = a.is_compatible(rws[h["j"] - 1], require=h["req"])
         elif op == "IsCompatVar":
@@ -511,6 +546,9 @@ def execute(world: World, h, res, rws):
             r = _iterate(a.patches, lambda: a.patches)
         elif op == "PatchSum":
             r = a.sample_patch_sum()
+        elif op == "GetArray":
+            r = get_array_target(world, a, h["var"]).get_array()   # the array is only read, never written
+            return ("arr", r)
         elif op == "Sample":
             r = a.sample()
         elif op == "RedshiftCF":
@@ -591,6 +629,8 @@ class Judge:
             cls = "RedshiftData"
         elif h["op"] == "Normalise":
             cls = "RedshiftData" if h["var"] == "nz" else "HistData"
+        elif h["op"] == "GetArray":
+            cls = CLASSNAME[ga_path(h["var"], v["k"])[1]]   # the class whose accessor is called
         arg = "any" if outcome.startswith("mutates") else arg_class(h, vws, self._exp)
         return f"{self.prop}|{cls}.{OPNAME[h['op']]}|{arg}|{outcome}"
 
@@ -659,6 +699,40 @@ class Judge:
             return self._judge_construct(scen, hist, res, vws, det)
         if kind == "other":
             self.violation(h, vws, "returns_NotImplemented", det(real=repr(val)))
+            return None
+        if kind == "asym":
+            if exp == "open":
+                self.drift(h, vws, "asymmetric_in_unprescribed_case", det(x_eq_y=val[0], y_eq_x=val[1]))
+            else:
+                self.violation(h, vws, "asymmetric", det(x_eq_y=val[0], y_eq_x=val[1]))
+            return None
+        if exp == "arr":
+            if kind == "rej":
+                self.violation(h, vws, f"raises_{type(val).__name__}", det(error=repr(val)))
+                return None
+            if kind != "arr" or not isinstance(val, np.ndarray):
+                self.violation(h, vws, "returns_wrong_type", det(real=_describe(val)))
+                return None
+            expa = np.array([[[rat(r) for r in row] for row in mat] for mat in res["items"]], dtype=np.float64)
+            try:
+                got = np.asarray(val, dtype=np.float64)
+            except Exception as exc:
+                self.violation(h, vws, "returns_wrong_type", det(real=_describe(val), error=repr(exc)))
+                return None
+            if got.shape != expa.shape:
+                self.violation(h, vws, "wrong_shape", det(real=list(got.shape), expected_shape=list(expa.shape)))
+                return None
+            undef = np.isnan(expa)
+            if not np.allclose(got[~undef], expa[~undef], rtol=rtol_arr(h), atol=1e-12):
+                level = ga_path(h["var"], vws[h["i"] - 1]["k"])[1]
+                d = det(real=got.tolist(), model=[[[None if r[1] == 0 else f"{r[0]}/{r[1]}" for r in row] for row in mat]
+                                                 for mat in res["items"]])
+                if self.sampling_is_foreign and not base_sampling_ok and level in ("NC", "SW"):
+                    self.drift(h, vws, "normalised_array_differs_from_model_see_C04", d)
+                else:
+                    self.violation(h, vws, "wrong_array", d)
+            elif np.any(np.isfinite(got[undef])):
+                self.drift(h, vws, "finite_value_where_formula_undefined", det(real=got.tolist()))
             return None
 
         if exp in ("val", "alts"):
@@ -780,6 +854,11 @@ class Judge:
         return None
 
 
+def rtol_arr(h) -> float:
+    """Pair counts and weight products are handed out as stored (exact); normalised counts are one division."""
+    return 1e-12 if h["var"].endswith((".PC", ".SW")) else 1e-9
+
+
 def _strip(m: str) -> str:
     return m.split("[")[0].split(":")[0]
 
@@ -859,6 +938,9 @@ def _short_res(res) -> dict:
         out["documented_errors"] = sorted(res["exc"])
     if res["out"] == "list":
         out["items"] = len(res["items"])
+    if res["out"] == "arr":
+        out["shape"] = [len(res["items"]), len(res["items"][0]), len(res["items"][0][0])]
+        out["first_bin"] = [[f"{r[0]}/{r[1]}" for r in row] for row in res["items"][0]]
     return out
 
 
@@ -882,6 +964,9 @@ class Replayer:
         self.histories = 0
         self.repaired = 0
         self.ops_seen: dict = {}
+        self.pairs_seen: dict = {}   # (previous operation, operation) of the replayed histories of length >= 2
+        self.eq_on_undefined = 0     # == with a prescribed result, executed on a real container holding NaN
+        self.mutations = 0           # steps after which an older object of the workspace had changed
         self.sampling_is_foreign = sampling_is_foreign
 
     @staticmethod
@@ -927,6 +1012,11 @@ class Replayer:
             h = khist[-1]
             self.replayed += 1
             self.ops_seen[h["op"]] = self.ops_seen.get(h["op"], 0) + 1
+            if len(khist) > 1:
+                pair = (khist[-2]["op"], h["op"])
+                self.pairs_seen[pair] = self.pairs_seen.get(pair, 0) + 1
+            if h["op"] in ("Eq", "EqVar") and res["out"] == "bool" and has_undefined(vws[h["i"] - 1]):
+                self.eq_on_undefined += 1
             outcome = execute(self.world, h, res, rws)
             obj = self.judge.judge(scen, khist, res, vws, outcome, base_sampling_ok=base_ok)
             # operands must be unchanged (operations are pure)
@@ -935,10 +1025,12 @@ class Replayer:
                 if mm:
                     self.judge.violation(h, vws, "mutates_operand" if pos in (h["i"] - 1, h["j"] - 1) else "mutates_other_object",
                                          self.judge.detail(scen, khist, res, dict(object=pos + 1, fields=mm)))
+                    self.mutations += 1
                     rws = list(rws)
                     rws[pos] = self.world.build(v)
             nontrivial = (scen_key(scen), self.hkey(khist)) if len(khist) > 1 or res["out"] != "val" else None
             self.ctx.evaluated(1, nontrivial)
+            before = self.mutations
             if res["out"] in ("val", "alts"):
                 if obj is None:
                     # continue below the failed step with the object the model prescribes
@@ -950,6 +1042,10 @@ class Replayer:
                 self._descend(scen, khist, vws + [res["v"]], rws + [obj], children, base_ok)
             else:
                 self._descend(scen, khist, vws, rws, children, base_ok)
+            if self.mutations != before:
+                # a step further down changed one of OUR objects (it was reported there and replaced in the deeper
+                # workspace only): the next sibling must start from the objects of the model again
+                rws = [ro if not self.world.mismatches(ro, v) else self.world.build(v) for ro, v in zip(rws, vws)]
 
 
 def corrupt(res: dict) -> dict | None:
@@ -971,6 +1067,14 @@ def corrupt(res: dict) -> dict | None:
     if res["out"] == "bool":
         res["b"] = not res["b"]
         return res
+    if res["out"] == "arr":
+        for mat in res["items"]:
+            for row in mat:
+                for pos, (n, d) in enumerate(row):
+                    if d != 0:
+                        row[pos] = [n + 3 * d, d]
+                        return res
+        return None
     if res["out"] == "rej":
         return None
     return None
@@ -985,6 +1089,7 @@ def replay_case(ctx, world: World, path: str, *, own_ops=None, sampling_is_forei
         raise tlc.TLCMachineryError("this replay file does not stem from a model history (end-to-end case): rerun the check")
     scen = dict(det["scenario"])
     scen["mem"] = frozenset(scen["mem"])
+    scen.setdefault("zero", 0)
     hist = det["hist_full"]
     ops = sorted({h["op"] for h in hist})
     res = run_model([scen], ops, len(hist), invariants=["TypeOK", "AcceptIffValid"], emit=True, focus=False, workers=2)
